@@ -76,6 +76,7 @@ def run(ctx: Ctx):
 
 
 # ------------------------------------------------------------------------------------- DP-CLOSED
+    ctx.section(check_modmask, ctx)
 
 
 def check_closed(ctx: Ctx, te: FuncInfo, ts: FuncInfo):
@@ -835,3 +836,15 @@ def check_pipeline(ctx: Ctx):
     ta = ctx.repo.func("ast2logic.t_ast.translate_ast")
     lp = [l for l in q.for_loops(ta.node) if norm(l.iter) == "fun.body"]
     ctx.check(len(lp) == 1 and "exps.append(s_exps)" in norm(lp[0]) and q.reversal_parity(lp[0].iter)[1] == 0, "RW-ORDER", ta, "statements translated in source order, every definition kept", "", "", ta.node)
+
+
+def check_modmask(ctx: Ctx):
+    """exact, over the modules this property is anchored in"""
+    n = 0
+    for fi in ctx.repo.functions.values():
+        if fi.parent is not None or not any(fi.module.name.startswith(x) for x in ['qlasskit.ast2ast', 'qlasskit.ast2logic', 'qlasskit.types']):
+            continue
+        for site in q.modulo_by_mask_sites(fi.node):
+            n += 1
+            ctx.fail("SB-MODMASK", fi, f"`{norm(site)[:50]}`", f"`{norm(site)}` reduces a value with the all-ones mask as MODULUS: the largest value of that width ((1 << n) - 1) becomes 0; the modulus for n bits is 2**n (or use `& mask`)", site)
+    ctx.ok("SB-MODMASK", None, "no value is reduced modulo an all-ones mask", f"{n} sites", construct="ast2ast")
